@@ -305,8 +305,19 @@ func ingestCfg() *config.IngestConfig {
 func newWorker(root string, maxDepth int) *worker {
 	w := &worker{root: root, rows: seedRows(maxDepth), tmpl: map[string][]byte{}, states: map[[8]byte]struct{}{}}
 	must(os.MkdirAll(filepath.Join(root, "tmp"), 0o755), "mkdir")
-	db, err := database.New(&database.Config{MaxConnections: 2, MemoryLimit: "512MB", ThreadCount: 1,
-		TempDirectory: filepath.Join(root, "tmp", "spill"), UploadDir: filepath.Join(root, "tmp", "upload"), LocalStorageRoot: root}, zerolog.Nop())
+	// database.New configures DuckDB under real-time deadlines of a few seconds; on a machine that is heavily
+	// oversubscribed (16 shards start at once next to other builds) one can expire: that is the environment,
+	// not the property — try again
+	var db *database.DuckDB
+	var err error
+	for attempt := 0; attempt < 6; attempt++ {
+		db, err = database.New(&database.Config{MaxConnections: 2, MemoryLimit: "512MB", ThreadCount: 1,
+			TempDirectory: filepath.Join(root, "tmp", "spill"), UploadDir: filepath.Join(root, "tmp", "upload"), LocalStorageRoot: root}, zerolog.Nop())
+		if err == nil {
+			break
+		}
+		time.Sleep(time.Duration(attempt+1) * time.Second)
+	}
 	must(err, "database.New")
 	w.duck = db
 	w.lic = license.VerifClient()
@@ -913,7 +924,7 @@ func genOne(one, ctx []int, maxLen int) func(func([]int) bool) {
 	return func(yield func([]int) bool) {
 		ok := true
 		for length := 1; length <= maxLen && ok; length++ {
-			for pos := 0; pos < length && ok; pos++ {
+			for pos := length - 1; pos >= 0 && ok; pos-- { // the longest prefixes first (matters only when the deadline cuts a run)
 				seq := make([]int, length)
 				var rec func(i int)
 				rec = func(i int) {
@@ -967,8 +978,8 @@ func passes(quick bool) []pass {
 		deep := []int{eTick, eSched, eSchedRead, eManual, eManualRange, eRestart}
 		qctx := []int{eTick, eSched, eManual, eRestart, eUpdate} // thorough adds tick(I/2) and, at .250 s, everything else
 		return []pass{
-			mk("core@.250s", q250, cut(3), "every history of length 1..%d over the core alphabet "+evList(core), genAll(core, cut(3))),
 			mk("shapes@.250s", q250, cut(3), "every history of length 1..%d with exactly one of the manual request shapes "+evList(shapesOnly)+" and the other events from "+evList(qctx), genOne(shapesOnly, qctx, cut(3))),
+			mk("core@.250s", q250, cut(3), "every history of length 1..%d over the core alphabet "+evList(core), genAll(core, cut(3))),
 			mk("core@.000s", 0, cut(2), "every history of length 1..%d over the core alphabet", genAll(core, cut(2))),
 			mk("shapes@.000s", 0, cut(3), "every history of length 1..%d with exactly one of the manual request shapes and the other events from "+evList(small), genOne(shapesOnly, small, cut(3))),
 			{name: "deep@.250s", frac: q250, maxLen: cut(4), what: "every history of length %d over " + evList(deep), gen: genLen(deep, cut(4), cut(4))},
